@@ -562,7 +562,11 @@ func finish(d *Driver, tier string, seed int64, all []*ItemResult, wall time.Dur
 			outLines = append(outLines, fmt.Sprintf("VIOLATION property=%s replay=%s", v.Property, v.ReplayFile))
 			outLines = append(outLines, fmt.Sprintf("  item=%s obligation=%s: %s", v.Item, v.Obligation, v.Detail))
 		default:
-			inconcl = append(inconcl, fmt.Sprintf("%s: %s: solver counterexample not reproduced natively (encoding gap): %s", v.Item, v.Obligation, v.Detail))
+			if v.Confirmed == "not-replayed" {
+				inconcl = append(inconcl, fmt.Sprintf("%s: %s: counterexample not replayed (replay cap reached): %s", v.Item, v.Obligation, v.Detail))
+			} else {
+				inconcl = append(inconcl, fmt.Sprintf("%s: %s: solver counterexample not reproduced natively (encoding gap): %s", v.Item, v.Obligation, v.Detail))
+			}
 		}
 	}
 	fnames := make([]string, 0, len(funcs))
